@@ -23,5 +23,11 @@ def obligations(tier: str) -> list[Ob]:
             encoded=["openapi_python_client.parser.properties:property_from_data", "openapi_python_client.parser.properties:_property_from_ref"],
             bounds={"wrappers": "bare $ref / allOf / oneOf / anyOf", "target kinds": 3},
         ),
+        harness_ob(
+            "object_notations", "C17_objects.py", tier, timeout=200 if q else 600, cpus=4,
+            finding_by_func={"object_nullable_admits_null": "C17-F1"},
+            encoded=["openapi_python_client.schema.openapi_schema_pydantic.schema:Schema.handle_nullable", "openapi_python_client.parser.properties:property_from_data", "openapi_python_client.parser.properties.union:UnionProperty.build", "openapi_python_client.parser.properties.model_property:_process_properties"],
+            bounds={"object bases": "inline object; allOf of 1 / 2 references, with and without `type: object`; allOf + own properties", "required": "both"},
+        ),
         Ob("replay_equivalent_documents", "vlib.replay_checks:equivalent_documents", {}, timeout_s=900, engine="replay", cpus=1),
     ]
